@@ -1,0 +1,321 @@
+//go:build verif
+
+// Contracts for the govc deductive verifier (see /verif/DESIGN.md). Compiled only under the build
+// tag "verif"; adds no behaviour. Contract blocks are the //@ comments, keyed by function. The Go
+// functions are loop-free specification functions written from SEMI E37 (header byte map §8.2,
+// state table §5.4-5.6) and from the property statements, never copied from the code under proof.
+package hsms
+
+import (
+	"github.com/arloliu/go-secs/v2/internal/wire"
+	"github.com/arloliu/go-secs/v2/secs2"
+)
+
+// --- clause-language prelude (symbolic for the verifier, executable for replay tests) ---
+
+func zzOld[T any](x T) T   { return x }
+func zzImp(a, b bool) bool { return !a || b }
+
+type zzInt interface {
+	~int | ~int8 | ~int16 | ~int32 | ~int64 | ~uint | ~uint8 | ~uint16 | ~uint32 | ~uint64
+}
+
+func zzForall[T zzInt](f func(T) bool) bool {
+	for j := -2; j < 70000; j++ {
+		if T(j) < 0 != (j < 0) {
+			continue
+		}
+		if !f(T(j)) {
+			return false
+		}
+	}
+	return true
+}
+func zzResult[T any](i int) (zero T) { panic("spec only") }
+func zzIter() int                    { panic("spec only") }
+func zzFresh(x any) bool             { return true }
+func zzSameSlice[T any](a, b []T) bool {
+	return len(a) == len(b) && (len(a) == 0 || &a[0] == &b[0])
+}
+
+var _ = wire.OwnedBytes
+
+// --- C03: SEMI E37 §8.2 header byte map (DESIGN.md Appendix F.2) ---
+
+// specHeader lays the ten header bytes out in their E37 positions.
+func specHeader(sid uint16, b2, b3, ptype, stype byte, sys [4]byte) [10]byte {
+	return [10]byte{byte(sid >> 8), byte(sid), b2, b3, ptype, stype, sys[0], sys[1], sys[2], sys[3]}
+}
+
+// specDataB2 is header byte 2 of a data message: W-bit in bit 7, stream in bits 6..0.
+func specDataB2(stream uint8, w bool) byte {
+	if w {
+		return stream | 0x80
+	}
+	return stream
+}
+
+// specValidSType: the STypes E37 defines (0 data, 1..7 and 9 control).
+func specValidSType(b byte) bool { return b <= 7 || b == 9 }
+
+func specIsCtl(m Message) bool  { _, ok := m.(*ControlMessage); return ok }
+func specIsData(m Message) bool { _, ok := m.(*DataMessage); return ok }
+
+//@ func IsValidSType
+//@ ensures [table] result == specValidSType(b)
+
+//@ func ToSystemBytes
+//@ ensures [be] result == [4]byte{byte(id >> 24), byte(id >> 16), byte(id >> 8), byte(id)}
+
+//@ func FromSystemBytes
+//@ ensures [be] result == uint32(b[0])<<24 | uint32(b[1])<<16 | uint32(b[2])<<8 | uint32(b[3])
+
+// ---- control message factories ----
+
+//@ func NewSelectReq
+//@ ensures [hdr] result != nil && result.header == specHeader(sessionID, 0, 0, 0, 1, systemBytes) && result.replyExpected
+//@ ensures [fresh] fresh(result)
+
+//@ func NewDeselectReq
+//@ ensures [hdr] result != nil && result.header == specHeader(sessionID, 0, 0, 0, 3, systemBytes) && result.replyExpected
+//@ ensures [fresh] fresh(result)
+
+//@ func NewLinktestReq
+//@ ensures [hdr] result != nil && result.header == specHeader(0xFFFF, 0, 0, 0, 5, systemBytes) && result.replyExpected
+//@ ensures [fresh] fresh(result)
+
+//@ func NewSeparateReq
+//@ ensures [hdr] result != nil && result.header == specHeader(sessionID, 0, 0, 0, 9, systemBytes) && !result.replyExpected
+//@ ensures [fresh] fresh(result)
+
+//@ func NewSelectRsp
+//@ requires req != nil
+//@ ensures [rej] (result1 != nil) == (req.header[5] != 1)
+//@ ensures [nil] result1 != nil ==> result0 == nil
+//@ ensures [hdr] result1 == nil ==> result0 != nil && !result0.replyExpected &&
+//@     result0.header == specHeader(uint16(req.header[0])<<8|uint16(req.header[1]), 0, selectStatus, 0, 2,
+//@                                  [4]byte{req.header[6], req.header[7], req.header[8], req.header[9]})
+//@ ensures [fresh] result1 == nil ==> fresh(result0)
+
+//@ func NewDeselectRsp
+//@ requires req != nil
+//@ ensures [rej] (result1 != nil) == (req.header[5] != 3)
+//@ ensures [hdr] result1 == nil ==> result0 != nil && !result0.replyExpected &&
+//@     result0.header == specHeader(uint16(req.header[0])<<8|uint16(req.header[1]), 0, deselectStatus, 0, 4,
+//@                                  [4]byte{req.header[6], req.header[7], req.header[8], req.header[9]})
+
+//@ func NewLinktestRsp
+//@ requires req != nil
+//@ ensures [rej] (result1 != nil) == (req.header[5] != 5)
+//@ ensures [hdr] result1 == nil ==> result0 != nil && !result0.replyExpected &&
+//@     result0.header == specHeader(0xFFFF, 0, 0, 0, 6, [4]byte{req.header[6], req.header[7], req.header[8], req.header[9]})
+
+// specRejectB2: Reject.req byte 2 carries the offending PType for reason 2, else the offending SType.
+func specRejectB2(reason, ptype, stype byte) byte {
+	if reason == 2 {
+		return ptype
+	}
+	return stype
+}
+
+//@ func NewRejectReqRaw
+//@ ensures [hdr] result != nil && !result.replyExpected &&
+//@     result.header == specHeader(sessionID, specRejectB2(reasonCode, pType, sType), reasonCode, 0, 7, systemBytes)
+//@ ensures [fresh] fresh(result)
+
+// ---- control message methods ----
+
+//@ func (*ControlMessage).Type
+//@ requires msg != nil
+//@ ensures [valid]   specValidSType(msg.header[5]) ==> result == MsgType(msg.header[5])
+//@ ensures [invalid] !specValidSType(msg.header[5]) ==> result == UndefinedMsgType
+
+//@ func (*ControlMessage).SessionID
+//@ requires msg != nil
+//@ ensures [be] result == uint16(msg.header[0])<<8|uint16(msg.header[1])
+
+//@ func (*ControlMessage).SystemBytes
+//@ requires msg != nil
+//@ ensures [copy] result == [4]byte{msg.header[6], msg.header[7], msg.header[8], msg.header[9]}
+
+//@ func (*ControlMessage).HeaderBytes
+//@ requires msg != nil
+//@ ensures [copy] result == msg.header
+
+//@ func (*ControlMessage).ToBytes
+//@ requires msg != nil
+//@ ensures [len]    len(result) == 14
+//@ ensures [prefix] result[0] == 0 && result[1] == 0 && result[2] == 0 && result[3] == 10
+//@ ensures [hdr]    forall j :: 0 <= j && j < 10 ==> result[4+j] == msg.header[j]
+//@ ensures [fresh]  fresh(result)
+
+//@ func (*ControlMessage).WithSessionID
+//@ requires msg != nil
+//@ ensures [stamp] result != nil && result.header[0] == byte(id>>8) && result.header[1] == byte(id)
+//@ ensures [frame] forall j :: 2 <= j && j < 10 ==> result.header[j] == msg.header[j]
+//@ ensures [flag]  result.replyExpected == msg.replyExpected
+//@ ensures [orig]  msg.header == old(msg.header) && fresh(result)
+
+//@ func (*ControlMessage).WithSystemBytes
+//@ requires msg != nil
+//@ ensures [stamp] result != nil && result.header[6] == b[0] && result.header[7] == b[1] && result.header[8] == b[2] && result.header[9] == b[3]
+//@ ensures [frame] forall j :: 0 <= j && j < 6 ==> result.header[j] == msg.header[j]
+//@ ensures [flag]  result.replyExpected == msg.replyExpected
+//@ ensures [orig]  msg.header == old(msg.header) && fresh(result)
+
+// ---- data message accessors and re-stamping ----
+
+//@ func (*DataMessage).SessionID
+//@ requires msg != nil
+//@ ensures [be] result == uint16(msg.header[0])<<8|uint16(msg.header[1])
+
+//@ func (*DataMessage).SystemBytes
+//@ requires msg != nil
+//@ ensures [copy] result == [4]byte{msg.header[6], msg.header[7], msg.header[8], msg.header[9]}
+
+//@ func (*DataMessage).HeaderBytes
+//@ requires msg != nil
+//@ ensures [copy] result == msg.header
+
+//@ func (*DataMessage).Stream
+//@ requires msg != nil
+//@ ensures [bits] result == msg.header[2]&0x7F
+
+//@ func (*DataMessage).Function
+//@ requires msg != nil
+//@ ensures [byte3] result == msg.header[3]
+
+//@ func (*DataMessage).WaitBit
+//@ requires msg != nil
+//@ ensures [bit7] result == (msg.header[2]&0x80 != 0)
+
+//@ func (*DataMessage).WithSessionID
+//@ requires msg != nil
+//@ ensures [stamp] result != nil && result.header[0] == byte(id>>8) && result.header[1] == byte(id)
+//@ ensures [frame] forall j :: 2 <= j && j < 10 ==> result.header[j] == msg.header[j]
+//@ ensures [share] result.body == msg.body && result.dec == msg.dec
+//@ ensures [orig]  msg.header == old(msg.header) && fresh(result)
+
+//@ func (*DataMessage).WithSystemBytes
+//@ requires msg != nil
+//@ ensures [stamp] result != nil && result.header[6] == b[0] && result.header[7] == b[1] && result.header[8] == b[2] && result.header[9] == b[3]
+//@ ensures [frame] forall j :: 0 <= j && j < 6 ==> result.header[j] == msg.header[j]
+//@ ensures [share] result.body == msg.body && result.dec == msg.dec
+//@ ensures [orig]  msg.header == old(msg.header) && fresh(result)
+
+// ---- C05: SEMI E37 §5.4-5.6 state table (DESIGN.md Appendix F.3) ----
+
+// specEdge: the only edges along which the logical state may change.
+func specEdge(from, to ConnState) bool {
+	return (from == NotConnectedState && to == NotSelectedState) ||
+		(from == NotSelectedState && to == SelectedState) ||
+		(from == SelectedState && to == NotSelectedState) ||
+		(from == NotSelectedState && to == NotConnectedState) ||
+		(from == SelectedState && to == NotConnectedState)
+}
+
+// specNext: the state after an event per the E37 table; events that do not apply leave it unchanged.
+func specNext(cur ConnState, ev fsmEvent) ConnState {
+	switch {
+	case ev == evTCPUp && cur == NotConnectedState:
+		return NotSelectedState
+	case ev == evSelectAccepted && cur == NotSelectedState:
+		return SelectedState
+	case ev == evSelectLost && cur == SelectedState:
+		return NotSelectedState
+	case ev == evDisconnect && (cur == NotSelectedState || cur == SelectedState):
+		return NotConnectedState
+	case ev == evT7Timeout && cur == NotSelectedState:
+		return NotConnectedState
+	case ev == evClose:
+		return NotConnectedState
+	}
+	return cur
+}
+
+//@ func transition
+//@ requires cur <= SelectedState
+//@ ensures [table]  result0 == specNext(cur, ev)
+//@ ensures [edges]  result0 != cur ==> specEdge(cur, result0) && result1
+//@ ensures [noop]   !result1 ==> result0 == cur
+//@ ensures [t7]     ev == evT7Timeout && cur == SelectedState ==> result0 == SelectedState && !result1
+//@ ensures [closed] ev == evClose ==> result0 == NotConnectedState && result1
+//@ ensures [range]  result0 <= SelectedState
+
+// ---- C03: data message construction, serialization, frame decode ----
+
+// specItemErr: the deferred error a body item carries (a nil item is the empty body).
+func specItemErr(it secs2.Item) error {
+	if it == nil {
+		return nil
+	}
+	return it.Error()
+}
+
+// specOwned: body b is the zero-copy adoption of exactly the slice s.
+func specOwned(b wire.Body, s []byte) bool {
+	return wire.ZZRawOf(b) && zzSameSlice(wire.ZZRawBytes(b), s)
+}
+
+//@ func NewDataMessage
+//@ ensures [rej]  (result1 != nil) == (stream > 127 || (replyExpected && function%2 == 0) || specItemErr(item) != nil)
+//@ ensures [nil]  result1 != nil ==> result0 == nil
+//@ ensures [hdr]  result1 == nil ==> result0 != nil &&
+//@                result0.header == specHeader(sessionID, specDataB2(stream, replyExpected), function, 0, 0, systemBytes)
+//@ ensures [body] result1 == nil ==> result0.body != nil && result0.dec != nil && result0.dec.err == nil &&
+//@                (item != nil ==> wire.ZZTreeItem(result0.body) == item && result0.dec.item == item) &&
+//@                (item == nil ==> wire.ZZTreeItem(result0.body) != nil && wire.ZZTreeItem(result0.body) == result0.dec.item &&
+//@                                 result0.dec.item.Error() == nil && result0.dec.item.EncodedLen() == 0)
+//@ ensures [fresh] result1 == nil ==> fresh(result0) && fresh(result0.dec)
+
+//@ func (*DataMessage).ToBytes
+//@ requires msg != nil && msg.body != nil
+//@ ensures [len]    len(result) == 14 + msg.body.Len()
+//@ ensures [prefix] result[0] == byte(uint32(10+msg.body.Len())>>24) && result[1] == byte(uint32(10+msg.body.Len())>>16) &&
+//@                  result[2] == byte(uint32(10+msg.body.Len())>>8) && result[3] == byte(uint32(10+msg.body.Len()))
+//@ ensures [hdr]    forall j :: 0 <= j && j < 10 ==> result[4+j] == msg.header[j]
+//@ ensures [body]   forall j :: 0 <= j && j < msg.body.Len() ==> result[14+j] == wire.ZZBodyByte(msg.body, j)
+
+//@ func newRawFrameDataMessage
+//@ ensures [raw]   result != nil && result.header == h && specOwned(result.body, body) && result.dec != nil
+//@ ensures [fresh] fresh(result) && fresh(result.dec)
+
+//@ func decodeOwnedFrame
+//@ ensures [accept] (result1 == nil) == (len(owned) >= 10 && owned[4] == 0 && specValidSType(owned[5]))
+//@ ensures [nil]    result1 != nil ==> result0 == nil
+//@ ensures [ctl]    result1 == nil && owned[5] != 0 ==> specIsCtl(result0) && result0.(*ControlMessage) != nil &&
+//@                  result0.(*ControlMessage).header == [10]byte(owned[0:10]) && !result0.(*ControlMessage).replyExpected
+//@ ensures [data]   result1 == nil && owned[5] == 0 ==> specIsData(result0) && result0.(*DataMessage) != nil &&
+//@                  result0.(*DataMessage).header == [10]byte(owned[0:10]) && specOwned(result0.(*DataMessage).body, owned[10:])
+
+// specFrameOK: a complete frame (length prefix + header + body) is well-formed at the frame level.
+func specFrameOK(data []byte) bool {
+	if len(data) < 14 {
+		return false
+	}
+	n := uint32(data[0])<<24 | uint32(data[1])<<16 | uint32(data[2])<<8 | uint32(data[3])
+	return n >= 10 && n <= 16777215 && len(data) == 4+int(n) && data[8] == 0 && specValidSType(data[9])
+}
+
+//@ func DecodeHSMSMessage
+//@ ensures [accept] (result1 == nil) == specFrameOK(data)
+//@ ensures [nil]    result1 != nil ==> result0 == nil
+//@ ensures [ctl]    result1 == nil && data[9] != 0 ==> specIsCtl(result0) && result0.(*ControlMessage) != nil &&
+//@                  result0.(*ControlMessage).header == [10]byte(data[4:14])
+//@ ensures [data]   result1 == nil && data[9] == 0 ==> specIsData(result0) && result0.(*DataMessage) != nil &&
+//@                  result0.(*DataMessage).header == [10]byte(data[4:14]) && wire.ZZRawOf(result0.(*DataMessage).body) &&
+//@                  len(wire.ZZRawBytes(result0.(*DataMessage).body)) == len(data)-14 &&
+//@                  (forall j :: 0 <= j && j < len(data)-14 ==> wire.ZZRawBytes(result0.(*DataMessage).body)[j] == data[14+j]) &&
+//@                  fresh(wire.ZZRawBytes(result0.(*DataMessage).body))
+
+//@ func DecodeHSMSPayload
+//@ ensures [accept] (result1 == nil) == (len(payload) >= 10 && len(payload) <= 16777215 && payload[4] == 0 && specValidSType(payload[5]))
+//@ ensures [data]   result1 == nil && payload[5] == 0 ==> specIsData(result0) && result0.(*DataMessage) != nil &&
+//@                  result0.(*DataMessage).header == [10]byte(payload[0:10]) && wire.ZZRawOf(result0.(*DataMessage).body) &&
+//@                  len(wire.ZZRawBytes(result0.(*DataMessage).body)) == len(payload)-10 &&
+//@                  (forall j :: 0 <= j && j < len(payload)-10 ==> wire.ZZRawBytes(result0.(*DataMessage).body)[j] == payload[10+j]) &&
+//@                  fresh(wire.ZZRawBytes(result0.(*DataMessage).body))
+
+//@ func DecodeOwnedHSMSPayload
+//@ ensures [accept] (result1 == nil) == (len(payload) >= 10 && len(payload) <= 16777215 && payload[4] == 0 && specValidSType(payload[5]))
+//@ ensures [data]   result1 == nil && payload[5] == 0 ==> specIsData(result0) && specOwned(result0.(*DataMessage).body, payload[10:])
